@@ -3,7 +3,7 @@
 from __future__ import annotations
 
 import os
-from typing import Any, Dict, List, Optional, Tuple
+from typing import Any, Dict, List, Tuple
 
 from .. import bpapi, cases as cases_mod, gen, pyexec, ref, render_bp, shadowing as SH, strategies as S
 from ..model import Alias, Enum, Field, File, Message, TArray, TRef, enclosing_messages, file_of, iter_messages
@@ -279,7 +279,7 @@ def _sample(c: SH.Case, texts: Dict[str, str], stats: Stats) -> None:
 
 def selftest() -> None:
     """The resolver on the documented example and on the observed subtleties."""
-    from ..model import Unit, set_parents, TBase
+    from ..model import Unit, set_parents
 
     f = File("doc", "doc")
     b0 = Message("B")
